@@ -134,3 +134,24 @@ Proof.
   - intros [|[|[|p]]]; simpl; split; repeat (apply NoDup_cons; [simpl; intuition discriminate|]); apply NoDup_nil.
   - vm_compute. repeat split; reflexivity.
 Qed.
+
+(* aliasing: ONE container per rank is both gathered from and scattered into (forward(data), or forward(data, data) with the same
+   object twice): the values scattered are the ones the container held BEFORE the communication (gather precedes every scatter) *)
+Lemma PM_one_container_delivery : forall two ign src dst (dec : c05_decomp) (Dc : nat -> c05_data) (sz : nat -> nat),
+  (forall p, NoDup (map c05_ie_g (fst (nth p dec ([], [])))) /\ NoDup (map c05_ie_g (snd (nth p dec ([], []))))) ->
+  (forall p e, In e (fst (nth p dec ([], []))) -> c05_getsize (Dc p) (c05_ie_l e) = sz (c05_ie_g e)) ->
+  (forall p e, In e (snd (nth p dec ([], []))) -> c05_getsize (Dc p) (c05_ie_l e) = sz (c05_ie_g e)) ->
+  forall (fwd add : bool) (orders : list (list nat)) (q : nat), q < length dec ->
+  let ifs := c05_dec_ifs two ign src dst dec in
+  let szs := fun (p l : nat) => c05_getsize (Dc p) l in
+  Permutation (nth q orders []) (map fst (c05_recvs fwd (c05_g_cm ifs szs szs q))) ->
+  exists d' log',
+    nth q (c05_phase add fwd (map (c05_g_cm ifs szs szs) (seq 0 (length dec))) (map Dc (seq 0 (length dec))) (map Dc (seq 0 (length dec))) orders) C05_Stuck
+      = C05_Ok d' log' /\
+    Permutation log' (c05_g_pair_calls fwd ifs Dc szs szs q) /\
+    d' = c05_apply_calls add (Dc q) log' /\ c05_shape d' = c05_shape (Dc q).
+Proof.
+  intros two ign src dst dec Dc sz ND L1 L2 fwd add orders q Hq ifs szs HP.
+  destruct (PM_decomposition_delivery two ign src dst dec Dc Dc sz ND L1 L2 fwd add orders q Hq HP) as [d' [log' H]].
+  exists d', log'. destruct fwd; exact H.
+Qed.
